@@ -142,7 +142,10 @@ PairRows ==
     {Mk("pair", s, {"ver", "max"}, [Default EXCEPT !.ver = a, !.max = b], "doc", Ambiguous(a, b)) :
         <<a, b, s>> \in VNames \X VNames \X SrcsOf(FALSE)}
 
+\* names nobody documents; the second group looks like a documented name to a lenient reader (a number that equals a wire code
+\* modulo 256, a sign or a leading zero, the prefix of the other family, a letter too many)
 UnknownVersions == {"v2", "v6", "DSEv3", "v4.0", "latest"}
+                   \cup {"260", "259", "321", "322", "+4", "04", "4.", "v04", "v65", "v66", "dse1", "dse2", "dsev-61", "DSEv01", "vv4", "v4x", "0x4", "65536"}
 UnknownVerRows ==
     {Mk("ver_unknown", s, {"ver", "max"}, [Default EXCEPT !.ver = u, !.max = "DSEv2"], "doc", FALSE) :
         <<u, s>> \in UnknownVersions \X Srcs}
@@ -185,7 +188,7 @@ AllCaseRows ==
     \cup
     UNION {{MkM("cl_unsupported", "flag", {"unsup"}, [Default EXCEPT !.unsup = <<n>>], "mask", m, FALSE) : m \in Masks(n)} : n \in CNames}
 
-UnknownCLs == {"BOGUS", "LOCAL", "LOCAL-QUORUM", "QUORUMS", "11"}
+UnknownCLs == {"BOGUS", "LOCAL", "LOCAL-QUORUM", "QUORUMS", "11"} \cup {"LOCALQUORUM", "LOCAL_QUORUM_", "6", "0x06", "QUORUM1", "ON", "EACHQUORUM"}
 UnknownCLRows ==
     {Mk("override_unknown", s, {"unsup", "override"},
         [Default EXCEPT !.unsup = <<"ANY">>, !.override = u], "upper", FALSE) :
